@@ -2,6 +2,8 @@ package main
 
 import (
 	"fmt"
+	"io"
+	"os"
 	"go/constant"
 	"go/token"
 	"go/types"
@@ -148,11 +150,17 @@ type Exec struct {
 	trace bool
 	mapOrders bool
 	unsatMemo map[uint32]*PCNode
+	symAddr bool
 }
 
 func NewExec(prog *ssa.Program, solverKind string, timeoutMs int) (*Exec, error) {
 	ts := NewTS()
-	s, err := NewSolver(ts, solverKind, timeoutMs, nil)
+	var logw io.Writer
+	if p := os.Getenv("VCHECK_SMTLOG"); p != "" {
+		f, _ := os.Create(p)
+		logw = f
+	}
+	s, err := NewSolver(ts, solverKind, timeoutMs, logw)
 	if err != nil {
 		return nil, err
 	}
@@ -275,6 +283,16 @@ func (ex *Exec) addPC(st *State, c *Term) {
 
 func (ex *Exec) objAddr(st *State, id int) *Term {
 	o := ex.obj(st, id)
+	if o.addr == nil && !ex.symAddr {
+		// fixed, well separated concrete addresses (see DESIGN: address model)
+		if id < constBase {
+			o = ex.objW(st, id)
+			o.addr = ex.ts.Const(64, 0xc000000000+uint64(id)<<34)
+		} else {
+			o.addr = ex.ts.Const(64, 0x400000+uint64(id-constBase)<<20)
+		}
+		return o.addr
+	}
 	if o.addr == nil {
 		a := ex.ts.Fresh(64, "addr")
 		if id < constBase {
